@@ -198,7 +198,9 @@ class HarnessA:
         except HarnessCap:
             raise
         except Exception as e:  # an exception that escaped env.step(): a component process crashed
-            cause = e.__cause__ or e
+            cause = e
+            while cause.__cause__ is not None:      # simpy re-creates the exception at every process boundary
+                cause = cause.__cause__
             tb = cause.__traceback__
             where = "?"
             while tb is not None:
